@@ -1,0 +1,29 @@
+//go:build verif
+
+package pasta
+
+// Contracts for the deductive checker in /verif (comment-only; compiled only under the verif tag).
+// Pallas / Vesta decoders (C13): a compressed encoding is accepted only with exactly FpBytes bytes, an uncompressed
+// one only with 2*FpBytes bytes, no byte string makes a decoder panic (the "this should never happen" branch is
+// unreachable: a point just set from an affine x has Z == 1), and an accepted non-identity uncompressed pair
+// satisfies the curve equation (SetAffine's contract).
+//@ func (*PallasCurve).FromCompressed
+//@   property C13
+//@   bind F ringint, FP ringptr, Fp ringint, *Fp ringptr, Fq ringint, *Fq ringptr, C curveparams
+//@   nopanic
+//@   ensures err == nil ==> len(input) == pastaImpl.FpBytes
+//@ func (*PallasCurve).FromUncompressed
+//@   property C13
+//@   bind F ringint, FP ringptr, Fp ringint, *Fp ringptr, Fq ringint, *Fq ringptr, C curveparams
+//@   nopanic
+//@   ensures err == nil ==> len(input) == 2 * pastaImpl.FpBytes
+//@ func (*VestaCurve).FromCompressed
+//@   property C13
+//@   bind F ringint, FP ringptr, Fp ringint, *Fp ringptr, Fq ringint, *Fq ringptr, C curveparams
+//@   nopanic
+//@   ensures err == nil ==> len(input) == pastaImpl.FqBytes
+//@ func (*VestaCurve).FromUncompressed
+//@   property C13
+//@   bind F ringint, FP ringptr, Fp ringint, *Fp ringptr, Fq ringint, *Fq ringptr, C curveparams
+//@   nopanic
+//@   ensures err == nil ==> len(input) == 2 * pastaImpl.FqBytes
